@@ -39,7 +39,7 @@ def _disabled_sessions(chk):
 
 
 def run():
-    chk = core_check("C06", f_filter=lambda F: F == [], quick_keep=3, thorough_keep=1, extra=_disabled_sessions)
+    chk = core_check("C06", f_filter=lambda F: F == [], quick_keep=3, thorough_keep=1, extra=_disabled_sessions, traces=(2000, 40000), trace_flags="none")
     if isinstance(chk, int):
         return chk
     chk.assumptions += ["values are drawn from pools of leaf types (int, str, bytes, float, bool, None)",
